@@ -89,6 +89,8 @@ FINDINGS = [
     {"id": "C29-KF14", "targets": ("arm:thumb",), "sig": ("TypeError", "arch/encoding.py:__init__"),
      "detail": r"N arguments given, but <class 'ppci\.arch\.arm\.thumb_instructions\.StrN'> expects N",
      "pred": lambda case: _module_facts(case)["max_call_args"] > 4},
+    {"id": "C29-KF14", "targets": ("arm:thumb",), "sig": ("NotImplementedError", "arch/arm/arch.py:gen_prologue"), "detail": r"",
+     "pred": lambda case: _module_facts(case)["max_call_args"] > 4},
     {"id": "C29-KF15", "targets": RV, "sig": ("AssertionError", "arch/token.py:__setitem__"),
      "detail": r"encoding (Slli|Srai)\w*: field value negative", "desc_fix": "_mask_negative_shift_counts"},
     {"id": "C29-KF11", "targets": ARM, "floats": True,
